@@ -35,11 +35,13 @@ def build_tree(r, root):
     files = []
     used = set()
     for i, d in enumerate(dirs):
-        for _ in range(20):
-            nm = r.choice(NAMES)
-            if (d, nm) not in used:
-                used.add((d, nm))
-                break
+        free = [nm for nm in NAMES if (d, nm) not in used]
+        if not free:
+            # every name of this directory is taken: a second use would overwrite a file of the chain
+            d = next(x for x in DIRS if any((x, nm) not in used for nm in NAMES))
+            free = [nm for nm in NAMES if (d, nm) not in used]
+        nm = r.choice(free)
+        used.add((d, nm))
         files.append(posixpath.join(d, nm) if d else nm)
     final_value = r.randint(1000, 9999)
     error = r.choice([None, None, None, None, "type-string", "type-ident", "type-call", "angle", "angle-slash", "missing"])
